@@ -1,6 +1,6 @@
 (* C08 - API misuse and sampler failures surface as errors, never panics or stale answers. *)
 From Coq Require Import ZArith NArith List Bool Floats.
-From OX Require Import Numerics.FloatBits Planners.Model Proofs.NoPanic Proofs.ApiStruct Proofs.Final Proofs.PrmInv Proofs.PrmTotal.
+From OX Require Import Numerics.FloatBits Planners.Model Proofs.NoPanic Proofs.ApiStruct Proofs.Final Proofs.PrmInv Proofs.PrmTotal Proofs.StarNoHang.
 Import ListNotations.
 
 Section C08.
@@ -58,10 +58,16 @@ Theorem C08_rrtconnect_never_panics : well_formed ->
   forall seeded cs s rs, run rrtc_step (new_planner seeded) cs = (s, rs) -> Forall returns_normally rs.
 Proof. intros (A & B & C). exact (rrtc_never_panics dist interp lvs valid goal starts u64_at usample gsample maxd bias A B C). Qed.
 
-(* RRT*: no call ever panics (unwrap / index); that extraction also terminates is C15 (needs sane distances) *)
+(* RRT*: no call ever panics (unwrap / index); that extraction also terminates: next theorem *)
 Theorem C08_rrtstar_never_panics : well_formed ->
   forall seeded cs s rs, run rrtstar_step (new_planner seeded) cs = (s, rs) -> Forall (fun r => r <> RPanic) rs.
 Proof. intros (A & B & C). exact (rrtstar_never_panics dist interp lvs valid goal starts u64_at usample gsample maxd bias radius A B C). Qed.
+
+(* ... and no call ever fails to return: rewiring cannot close a parent cycle, so path extraction terminates -
+   for every sampler behaviour (failing samplers included), given only distances that are >= 0 and not NaN *)
+Theorem C08_rrtstar_never_hangs : (forall a b, fle zero (dist a b) = true) ->
+  forall seeded cs s rs, run rrtstar_step (new_planner seeded) cs = (s, rs) -> Forall (fun r => r <> RHang) rs.
+Proof. exact (rrtstar_never_hangs dist interp lvs valid goal starts u64_at usample gsample maxd bias radius). Qed.
 
 (* PRM: a query on a well-formed roadmap (C18 invariant, which holds in every reachable state) always returns -
    a path or an error, never a panic (index, missing parent-map key) and never a non-terminating extraction *)
@@ -104,6 +110,7 @@ Print Assumptions C08_prm_unsampled.
 Print Assumptions C08_rrt_never_panics.
 Print Assumptions C08_rrtconnect_never_panics.
 Print Assumptions C08_rrtstar_never_panics.
+Print Assumptions C08_rrtstar_never_hangs.
 Print Assumptions C08_prm_query_always_returns.
 Print Assumptions C08_refuted_sampler_fault.
 Print Assumptions C08_refuted_bias_out_of_range.
